@@ -41,8 +41,8 @@ def run_digest(prop, i, tier='quick', seed=0):
         f.pop('gc_mid_op', None)
         return [r['events_digest'], core.digest([plan, f])]
     if prop in ('C07', 'C19'):
-        from . import c07
-        plan = c07.gen_plan(rs, prop, prop == 'C07' and i % 2 == 1)
+        from . import c07, c07run
+        plan = c07run.plan_for(prop, rs, i)
         st, r = run_isolated(c07.execute, plan, 600)
         if st != 'ok':
             return [st, st]
@@ -117,7 +117,7 @@ def determinism(args):
         e = res['E'][k]
         if a[0] != e[0]:
             prop, i = k.split(':')
-            if prop == 'C07' and int(i) % 2 == 1:
+            if prop == 'C07' and int(i) % 3 == 1:
                 soft += 1      # fault position depends on real hash order
             else:
                 bad += 1
